@@ -381,7 +381,10 @@ fn random_color(r: &mut StdRng, extra: &mut Vec<(u8, u8, u8)>, allow16: u32) -> 
         7 => {
             // an xterm-256 colour (cube / grey ramp value)
             let lv = [0u8, 95, 135, 175, 215, 255];
-            let c = if r.gen_bool(0.7) { (lv[r.gen_range(0..6)], lv[r.gen_range(0..6)], lv[r.gen_range(0..6)]) } else { let g = 8 + 10 * r.gen_range(0..24u8); (g, g, g) };
+            // cube, grey ramp, or one of the sixteen SYSTEM colours of the xterm table (entries 0..15: 128-based, not the DOS values)
+            let sys: [(u8, u8, u8); 16] = [(0, 0, 0), (128, 0, 0), (0, 128, 0), (128, 128, 0), (0, 0, 128), (128, 0, 128), (0, 128, 128), (192, 192, 192),
+                                           (128, 128, 128), (255, 0, 0), (0, 255, 0), (255, 255, 0), (0, 0, 255), (255, 0, 255), (0, 255, 255), (255, 255, 255)];
+            let c = match r.gen_range(0..10) { 0..=4 => (lv[r.gen_range(0..6)], lv[r.gen_range(0..6)], lv[r.gen_range(0..6)]), 5..=6 => { let g = 8 + 10 * r.gen_range(0..24u8); (g, g, g) }, _ => sys[r.gen_range(0..16)] };
             push_color(extra, c)
         }
         _ => push_color(extra, (r.gen(), r.gen(), r.gen())),
